@@ -21,7 +21,7 @@ Proof. vm_compute. reflexivity. Qed.
 (* the read commands of the reference BMC (netfn, cmd) *)
 Definition read_cmds : list (N * N) :=
   [(6, 1); (6, 8); (6, 37); (6, 70); (6, 68); (0, 1); (0, 9); (4, 1); (4, 45); (4, 39); (4, 42);
-   (12, 2); (44, 0); (44, 8); (44, 11); (44, 18); (44, 20); (44, 22)].
+   (12, 2); (44, 0); (44, 8); (44, 11); (44, 18); (44, 20); (44, 22); (44, 46); (44, 52); (44, 54)].
 Definition is_read_cmd (r : request) : bool :=
   existsb (fun '(a, b) => (q_netfn r =? a) && (q_cmd r =? b)) read_cmds.
 
@@ -62,7 +62,9 @@ Definition read_samples : list (string * list (string * pv) * reply) := [
   ("get_event_receiver", [], RBytes [0]); ("get_picmg_properties", [], RBytes [0]);
   ("get_power_level", [arg "fru_id" 1; arg "power_type" 0], RBytes [0]);
   ("get_fan_speed_properties", [arg "fru_id" 1], RBytes [0]); ("get_fan_level", [arg "fru_id" 1], RBytes [0]);
-  ("get_led_state", [arg "fru_id" 1; arg "led_id" 2], RBytes [0])].
+  ("get_led_state", [arg "fru_id" 1; arg "led_id" 2], RBytes [0]);
+  ("get_target_upgrade_capabilities", [], RBytes [0]); ("get_upgrade_status", [], RBytes [0]);
+  ("query_selftest_results", [], RBytes [0])].
 Definition chk_read_sample (x : string * list (string * pv) * reply) : bool :=
   let '(n, a, rp) := x in
   match find_cop n with
